@@ -1,6 +1,6 @@
 (* Model of libvore/bytecode/generate.go (code generator with absolute program counters) and of the
    adjust() relocation methods of libvore/bytecode/bytecode.go. *)
-From Model Require Export Check.
+From Model Require Export Check Rx.
 
 Inductive generr :=
 | GNameClash (n : name)
@@ -16,7 +16,7 @@ Inductive varkind := VKCapture | VKSub (pc : nat).
 
 Record gstate := {
   gvars : list (name * varkind);
-  gsubs : list (name * (list instr * pstmts));      (* globalSubroutines *)
+  gsubs : list (name * (rx * pstmts));                (* globalSubroutines: body resolved at offset 0 *)
   gtrans : list (name * pstmts);                      (* globalTransformations *)
   gnext : nat                                         (* supply of loop ids (math/rand in Go) *)
 }.
@@ -26,6 +26,7 @@ Definition init_gstate : gstate := {| gvars := []; gsubs := []; gtrans := []; gn
 Definition set_vars (g : gstate) (v : list (name * varkind)) : gstate :=
   {| gvars := v; gsubs := gsubs g; gtrans := gtrans g; gnext := gnext g |}.
 
+(* the adjust() methods of bytecode.go *)
 Definition adjust (d : nat) (i : instr) : instr :=
   match i with
   | ICall n t => ICall n (t + d)
@@ -55,105 +56,90 @@ Definition listable_maxsize (l : listable) : Z :=
 Definition list_maxsize (ls : list listable) : Z :=
   fold_left (fun m l => Z.max m (listable_maxsize l)) ls (-1)%Z.
 
-Definition gen_listable (l : listable) : list instr :=
+Definition listable_instr (l : listable) : instr :=
   match l with
-  | LiStr nt cl v => [IMatchLit nt cl v]
-  | LiClass nt c => [IMatchClass nt c]
-  | LiRange f t => [IMatchRange false f t]
+  | LiStr nt cl v => IMatchLit nt cl v
+  | LiClass nt c => IMatchClass nt c
+  | LiRange f t => IMatchRange false f t
   end.
-
-(* generate_not_not: Branch, then each item followed by a Jump to the common end *)
-Definition gen_in (items : list listable) (offset : nat) : list instr :=
-  let codes := map gen_listable items in
-  let endpc := fold_left (fun e c => e + length c + 1) codes (offset + 1) in
-  let fix starts (cs : list (list instr)) (pc : nat) : list nat :=
-      match cs with [] => [] | c :: r => pc :: starts r (pc + length c + 1) end in
-  IBranch (starts codes (offset + 1)) :: flat_map (fun c => c ++ [IJump endpc]) codes.
-
-(* generate_not: StartNotIn item FailNotIn ... EndNotIn *)
-Fixpoint gen_notin_items (items : list listable) (pc : nat) : list instr :=
-  match items with
-  | [] => []
-  | it :: r =>
-      let c := gen_listable it in
-      IStartNotIn (pc + length c + 2) :: c ++ [IFailNotIn] ++ gen_notin_items r (pc + length c + 2)
-  end.
-
-Definition gen_notin (items : list listable) (offset : nat) : list instr :=
-  gen_notin_items items offset ++ [IEndNotIn (list_maxsize items)].
 
 Definition gbind {A B} (r : gres A) (f : A -> gres B) : gres B :=
   match r with GOk a => f a | GErr e => GErr e end.
 
-(* generateSearchInstruction and friends.  Returns the code and the new generator state. *)
-Fixpoint gen_expr (e : expr) (offset : nat) (g : gstate) {struct e} : gres (list instr * gstate) :=
+(* Name resolution and loop unrolling, following generateSearchInstruction and friends: the
+   offset is threaded exactly as the generator does, because subroutines are identified by the
+   program counter of their StartSubroutine. *)
+Fixpoint resolve_expr (e : expr) (offset : nat) (g : gstate) {struct e} : gres (rx * gstate) :=
   match e with
-  | EPrim l => gen_lit l offset g
-  | EList nt items => GOk (if nt then gen_notin items offset else gen_in items offset, g)
+  | EPrim l => resolve_lit l offset g
+  | EList nt items =>
+      GOk (if nt then XNotIn (map listable_instr items) (list_maxsize items)
+           else XIn (map listable_instr items), g)
   | EBranch l r =>
-      gbind (gen_lit l (offset + 1) g) (fun '(lc, g1) =>
-      gbind (gen_expr r (offset + 2 + length lc) g1) (fun '(rc, g2) =>
-        let endpc := offset + length lc + length rc + 3 in
-        GOk (IBranch [offset + 1; offset + length lc + 2] :: lc ++ [IJump endpc] ++ rc ++ [IJump endpc], g2)))
+      gbind (resolve_lit l (offset + 1) g) (fun '(a, g1) =>
+      gbind (resolve_expr r (offset + 2 + rx_len a) g1) (fun '(b, g2) => GOk (XAlt a b, g2)))
   | EDec n l =>
-      gbind (gen_lit l (offset + 1) g) (fun '(body, g1) =>
+      gbind (resolve_lit l (offset + 1) g) (fun '(b, g1) =>
         match alookup (gvars g1) n with
         | Some _ => GErr (GNameClash n)
-        | None => GOk (IStartVar n :: body ++ [IEndVar n], set_vars g1 (aset (gvars g1) n VKCapture))
+        | None => GOk (XDec n b, set_vars g1 (aset (gvars g1) n VKCapture))
         end)
   | ESub n body =>
       match alookup (gvars g) n with
       | Some _ => GErr (GNameClash n)
       | None =>
           let g0 := set_vars g (aset (gvars g) n (VKSub offset)) in
-          gbind (gen_exprs body (offset + 1) g0) (fun '(code, g1) =>
-            GOk (IStartSub offset n (offset + 1 + length code) :: code ++ [IEndSub n PNil], g1))
+          gbind (resolve_exprs body (offset + 1) g0) (fun '(b, g1) => GOk (XSub n b PNil, g1))
       end
   | ELoop mn mx fw nm body =>
       let unnamed := Nat.eqb (length nm) 0 in
-      (* the first [mn] iterations of an unnamed loop are unrolled *)
-      let fix unroll (k : nat) (cur : nat) (g : gstate) (acc : list instr) : gres (list instr * nat * gstate) :=
+      (* the first [mn] iterations of an unnamed loop are unrolled; [k] receives the rest *)
+      let fix unroll (k : nat) (cur : nat) (g : gstate) (tail : nat -> gstate -> gres (rx * gstate))
+          : gres (rx * gstate) :=
           match k with
-          | O => GOk (acc, cur, g)
-          | S k' => gbind (gen_expr body cur g) (fun '(c, g1) => unroll k' (cur + length c) g1 (acc ++ c))
+          | O => tail cur g
+          | S k' => gbind (resolve_expr body cur g) (fun '(c, g1) =>
+                    gbind (unroll k' (cur + rx_len c) g1 tail) (fun '(rest, g2) => GOk (XSeq c rest, g2)))
           end in
-      gbind (if unnamed then unroll mn offset g [] else GOk ([], offset, g)) (fun '(pre, cur, g1) =>
-        if (unnamed && Z.eqb (Z.of_nat mn) mx)%bool then GOk (pre, g1)
+      let tail := fun (cur : nat) (g1 : gstate) =>
+        if (unnamed && Z.eqb (Z.of_nat mn) mx)%bool then GOk (XEps, g1)
         else
-          gbind (gen_expr body (cur + 1) g1) (fun '(c, g2) =>
+          gbind (resolve_expr body (cur + 1) g1) (fun '(c, g2) =>
             let newmin := if (unnamed && Nat.ltb 0 mn)%bool then 0 else mn in
             let newmax := if (unnamed && Z.ltb 0 mx)%bool then (mx - Z.of_nat mn)%Z else mx in
             let id := gnext g2 in
             let g3 := {| gvars := gvars g2; gsubs := gsubs g2; gtrans := gtrans g2; gnext := S id |} in
-            GOk (pre ++ IStartLoop id newmin newmax fw (cur + length c + 1) nm :: c
-                     ++ [IStopLoop id newmin newmax fw cur nm], g3)))
+            GOk (XLoop id newmin newmax fw nm c, g3)) in
+      if unnamed then unroll mn offset g tail else tail offset g
   end
-with gen_lit (l : lit) (offset : nat) (g : gstate) {struct l} : gres (list instr * gstate) :=
+with resolve_lit (l : lit) (offset : nat) (g : gstate) {struct l} : gres (rx * gstate) :=
   match l with
-  | LStr nt cl v => GOk ([IMatchLit nt cl v], g)
-  | LClass nt c => GOk ([IMatchClass nt c], g)
-  | LSubExpr body => gen_exprs body offset g
+  | LStr nt cl v => GOk (XAtom (IMatchLit nt cl v), g)
+  | LClass nt c => GOk (XAtom (IMatchClass nt c), g)
+  | LSubExpr body => resolve_exprs body offset g
   | LVar n =>
       match alookup (gvars g) n with
-      | Some VKCapture => GOk ([IMatchVar n], g)
-      | Some (VKSub pc) => GOk ([ICall n pc], g)
+      | Some VKCapture => GOk (XRef n, g)
+      | Some (VKSub pc) => GOk (XCall n pc, g)
       | None =>
           match alookup (gsubs g) n with
           | None => GErr (GUndefined n)
-          | Some (code, validate) =>
-              let g1 := set_vars g (aset (gvars g) n (VKSub offset)) in
-              let body := map (adjust (offset + 1)) code in
-              GOk (IStartSub offset n (offset + 1 + length code) :: body ++ [IEndSub n validate], g1)
+          | Some (b0, validate) =>
+              GOk (XSub n (shift (offset + 1) b0) validate, set_vars g (aset (gvars g) n (VKSub offset)))
           end
       end
   end
-with gen_exprs (es : exprs) (offset : nat) (g : gstate) {struct es} : gres (list instr * gstate) :=
+with resolve_exprs (es : exprs) (offset : nat) (g : gstate) {struct es} : gres (rx * gstate) :=
   match es with
-  | ENil => GOk ([], g)
+  | ENil => GOk (XEps, g)
   | ECons e r =>
-      gbind (gen_expr e offset g) (fun '(c1, g1) =>
-      gbind (gen_exprs r (offset + length c1) g1) (fun '(c2, g2) => GOk (c1 ++ c2, g2)))
+      gbind (resolve_expr e offset g) (fun '(a, g1) =>
+      gbind (resolve_exprs r (offset + rx_len a) g1) (fun '(b, g2) => GOk (XSeq a b, g2)))
   end.
+
+(* the code generator: resolve, then lay the code out *)
+Definition gen_exprs (es : exprs) (offset : nat) (g : gstate) : gres (list instr * gstate) :=
+  gbind (resolve_exprs es offset g) (fun '(r, g1) => GOk (compile r offset, g1)).
 
 Definition gen_atom (a : atom) (g : gstate) : rinstr :=
   match a with
@@ -177,11 +163,11 @@ Fixpoint gen_command (c : command) (g : gstate) : gres (bcommand * gstate) :=
       | None => GOk (BSetTransform id body, g1)
       end
   | CSetPattern id pat pred =>
-      gbind (gen_exprs pat 0 (fresh_vars g)) (fun '(code, g1) =>
-        let g2 := {| gvars := gvars g1; gsubs := aset (gsubs g1) id (code, pred); gtrans := gtrans g1; gnext := gnext g1 |} in
+      gbind (resolve_exprs pat 0 (fresh_vars g)) (fun '(r, g1) =>
+        let g2 := {| gvars := gvars g1; gsubs := aset (gsubs g1) id (r, pred); gtrans := gtrans g1; gnext := gnext g1 |} in
         match check_ok CtxPredicate pred with
         | Some m => GErr (GCheck m)
-        | None => GOk (BSetPattern id code pred, g2)
+        | None => GOk (BSetPattern id (compile r 0) pred, g2)
         end)
   | CSetMatches id c' =>
       gbind (gen_command c' (fresh_vars g)) (fun '(bc, g1) => GOk (BSetMatches id bc, g1))
@@ -195,3 +181,25 @@ Fixpoint gen_program (cs : list command) (g : gstate) : gres (list bcommand) :=
   end.
 
 Definition compile_ast (cs : list command) : gres (list bcommand) := gen_program cs init_gstate.
+
+(* the resolved body of every command, in order (None for set commands): what the specification
+   interprets *)
+Fixpoint resolve_command (c : command) (g : gstate) : gres (option rx * gstate) :=
+  match c with
+  | CFind _ _ _ _ body | CReplace _ _ _ _ body _ =>
+      gbind (resolve_exprs body 0 (fresh_vars g)) (fun '(r, g1) => GOk (Some r, g1))
+  | CSetTransform id body =>
+      GOk (None, {| gvars := []; gsubs := gsubs g; gtrans := aset (gtrans g) id body; gnext := gnext g |})
+  | CSetPattern id pat pred =>
+      gbind (resolve_exprs pat 0 (fresh_vars g)) (fun '(r, g1) =>
+        GOk (None, {| gvars := gvars g1; gsubs := aset (gsubs g1) id (r, pred); gtrans := gtrans g1; gnext := gnext g1 |}))
+  | CSetMatches id c' =>
+      gbind (resolve_command c' (fresh_vars g)) (fun '(_, g1) => GOk (None, g1))
+  end.
+
+Fixpoint resolve_program (cs : list command) (g : gstate) : gres (list (option rx)) :=
+  match cs with
+  | [] => GOk []
+  | c :: r => gbind (resolve_command c g) (fun '(x, g1) =>
+              gbind (resolve_program r g1) (fun xs => GOk (x :: xs)))
+  end.
